@@ -369,3 +369,26 @@ def C08.holds (c : Ctx) (j : Journal) : Bool :=
 
 end Spec
 end Esc
+
+namespace Esc
+namespace Spec
+
+/-! ### C12 -/
+
+/-- Every call made while processing a group is aimed at one of its own nodes (as listed for it in
+    this scan), at an instance of its own cloud group, or at that cloud group. -/
+def C12.okEntry (c : Ctx) (e : Entry) : Bool :=
+  match e.call with
+  | .getNode n | .deleteNode n => c.view.nodes.any (fun x => x.name == n)
+  | .updateNode o => c.view.nodes.any (fun x => x.name == o.name)
+  | .terminateInAsg id _ => c.g.asg.instances.any (fun i => i.id == id)
+  | .setDesired gid _ | .attach gid _ | .createTags gid => gid == c.g.id
+  | .describeAsgs names => names == [c.g.id]
+  | .describeInstances id => c.view.nodes.any (fun x => instanceIdOfProviderId x.providerID == id)
+  | .createFleet _ | .describeStatus _ | .terminateInstances _ => true
+  | .build => false
+
+def C12.holds (c : Ctx) (j : Journal) : Bool := j.all (C12.okEntry c)
+
+end Spec
+end Esc
